@@ -572,3 +572,58 @@ Proof.
 Qed.
 
 Print Assumptions pep_accepts_iff.
+
+(* ================= the v prefix is irrelevant ================= *)
+Lemma member_split_p s : regex.lang pep440_spec (map P s) -> exists V r, s = V ++ r /\ (V = [] \/ exists c, V = [c] /\ ascii_lower c = 118) /\ LP pp_rest_r r.
+Proof.
+  intros H. apply (lang_incl _ _ pp_in_ka) in H. change (LP pp_in_r s) in H. unfold pp_in_r in H.
+  apply dot_i in H. destruct H as [V [r [-> [HV H]]]]. exists V, r. split; [reflexivity|]. split; [|exact H].
+  apply pls_i in HV. destruct HV as [HV|HV]; [left; apply (LSg_one_inv P), HV|right]. apply (ci_inv 118 pep440_cls_ci_v ltac:(vm_compute; reflexivity)) in HV. exact HV.
+Qed.
+
+Lemma rest_starts_with_digit_p r : LP pp_rest_r r -> exists c t, r = c :: t /\ is_ascii_digit c = true.
+Proof.
+  unfold pp_rest_r. intros H. apply dot_i in H. destruct H as [E [r1 [-> [HE H]]]]. apply dot_i in H. destruct H as [d [r2 [-> [Hd _]]]].
+  apply pnum_inv in Hd. apply pls_i in HE. destruct HE as [HE|HE].
+  - apply (LSg_one_inv P) in HE. subst E. destruct (dnum_head d Hd) as [c [t [-> Hc]]]. exists c, (t ++ r2). split; [reflexivity|exact Hc].
+  - apply dot_i in HE. destruct HE as [e [b [-> [He _]]]]. apply pnum_inv in He. destruct (dnum_head e He) as [c [t [-> Hc]]].
+    exists c, ((t ++ b) ++ d ++ r2). split; [rewrite <- !app_assoc; reflexivity|exact Hc].
+Qed.
+
+Lemma vee_in c : ascii_lower c = 118 -> regex.lang pep440_cls_ci_v [P c].
+Proof.
+  intros H. assert (E : c = 118 \/ c = 86).
+  { unfold ascii_lower in H. destruct (is_ascii_upper c) eqn:U; [right; lia|left; exact H]. }
+  destruct E as [-> | ->]; apply rx_accepts_lang; vm_compute; reflexivity.
+Qed.
+
+(* an accepted string parses to the same value with or without the v / V in front *)
+Theorem pep_v_prefix_irrelevant c s v : ascii_lower c = 118 -> (pep_parse (c :: s) = Some v <-> (exists d t, s = d :: t /\ is_ascii_digit d = true) /\ pep_parse s = Some v).
+Proof.
+  intros Hc. assert (Cv : c = 118 \/ c = 86).
+  { unfold ascii_lower in Hc. destruct (is_ascii_upper c) eqn:U; [right; lia|left; exact Hc]. }
+  assert (Strip : strip_v_ci (c :: s) = s) by (destruct Cv as [-> | ->]; reflexivity).
+  split.
+  - intros H. assert (M : regex.lang pep440_spec (map P (c :: s))).
+    { unfold pep_parse in H. destruct (rx_accepts pep440_src (map P (c :: s))) eqn:R; [|discriminate]. apply pep440_regex_lang, rx_accepts_lang, R. }
+    destruct (member_split_p _ M) as [V [r [E [HV Hr]]]]. destruct (rest_starts_with_digit_p r Hr) as [d [t [-> Hd]]].
+    destruct HV as [-> |[c0 [-> _]]].
+    + (* no v consumed: the string would start with a digit, but it starts with v *) cbn [app] in E. inversion E; subst d.
+      destruct Cv as [-> | ->]; discriminate Hd.
+    + cbn [app] in E. inversion E; subst c0 s. split; [exists d, t; split; [reflexivity|exact Hd]|].
+      revert H. unfold pep_parse. destruct (rx_accepts pep440_src (map P (c :: d :: t))); [|discriminate].
+      assert (R2 : rx_accepts pep440_src (map P (d :: t)) = true) by (apply rx_accepts_lang, pep440_regex_lang, (lang_incl _ _ pp_rest_ka), Hr).
+      rewrite R2. unfold pep_extract, pep_caps. rewrite Strip, (strip_v_ci_digit d t Hd). trivial.
+  - intros [[d [t [-> Hd]]] H]. assert (M : regex.lang pep440_spec (map P (d :: t))).
+    { unfold pep_parse in H. destruct (rx_accepts pep440_src (map P (d :: t))) eqn:R; [|discriminate]. apply pep440_regex_lang, rx_accepts_lang, R. }
+    destruct (member_split_p _ M) as [V [r [E [HV Hr]]]]. destruct HV as [-> |[c0 [-> Hc0]]].
+    + cbn [app] in E. subst r.
+      assert (R2 : rx_accepts pep440_src (map P (c :: d :: t)) = true).
+      { apply rx_accepts_lang, pep440_regex_lang, (lang_incl _ _ pp_vrest_ka). change (map P (c :: d :: t)) with ([P c] ++ map P (d :: t)).
+        apply lang_dot_intro; [apply vee_in, Hc|exact Hr]. }
+      revert H. unfold pep_parse. rewrite R2. destruct (rx_accepts pep440_src (map P (d :: t))); [|discriminate].
+      unfold pep_extract, pep_caps. rewrite Strip, (strip_v_ci_digit d t Hd). trivial.
+    + cbn [app] in E. inversion E; subst c0. exfalso. assert (Dv : d = 118 \/ d = 86).
+      { unfold ascii_lower in Hc0. destruct (is_ascii_upper d) eqn:U; [right; lia|left; exact Hc0]. }
+      destruct Dv as [-> | ->]; discriminate Hd.
+Qed.
